@@ -124,9 +124,12 @@ struct ApiRun {
     enum { A_PLAIN = 0, A_ITER = 1, A_NOENUM = 2 };
     long enum_steps = 0;
     bool disk_plan_active = false;
+    bool absorbed_pending = false;        // a call completed normally although an allocation failed: compare dumps after the op
     bool iter_fault_hit = false;          // an iterator call ran under a fired allocation fault: caller aborts the iterator
     template <class F> int api(const char *fn, F f, int flags = A_PLAIN);
     void env_check(const char *fn, const std::string &loc0, int rnd0);
+    TxMonitor txm;
+    void tx_check(const char *fn, int rc, long k, bool sqlite_alloc);
     void enum_check_failed_attempt(const char *fn, int rc, long k, bool sqlite_alloc, bool do_dump);
 };
 
@@ -145,10 +148,18 @@ template <class F> int ApiRun::api(const char *fn, F f, int flags) {
             if (fired) { ++enum_steps; enum_check_failed_attempt(fn, rc, k, sq, false); iter_fault_hit = true; }
             return rc;
         }
-        for (long k = 1; k < 100000; ) {
+        // A failed allocation may be absorbed: SQLite recovers from some of its own (cache growth, hash resizing,
+        // lookaside fall-back), and the library itself retries a buffer growth with a smaller request.  The call then
+        // completes normally; it counts as the unfaulted execution and is judged by the model like any other call (with a
+        // full dump comparison right after the op, so that a swallowed failure with a partial effect is caught).
+        // To reach allocation sites beyond an absorbed one, some walks start at a later k.
+        long k0 = 1;
+        if (((h >> 9) % 3) == 0) k0 = 1 + (long) skip.below(sq ? 150 : 40);
+        for (long k = k0; k < 100000; ) {
             A.arm(k); int rc = f(); bool fired = A.fired; A.disarm();
             env_check(fn, loc0, rnd0);
             if (!fired) return rc;
+            if (rc != CIF_MEMORY_ERROR && rc != CIF_ERROR) { g_stats.inc(sq ? "fault.alloc_sqlite.absorbed" : "fault.alloc_libcif.absorbed"); absorbed_pending = true; ev("%s: %s allocation failure #%ld absorbed -> %s", fn, sq ? "storage-engine" : "library", k, rc_name(rc)); tx_check(fn, rc, k, sq); return rc; }
             ++enum_steps;
             bool do_dump = (k <= 3) || ((k & (k - 1)) == 0) || (!cfg.quick && (k % 8 == 0));
             enum_check_failed_attempt(fn, rc, k, sq, do_dump);
